@@ -114,7 +114,7 @@ def judge_job_case(rep: dict, parent: dict) -> list[str]:
     """property clauses for one travelling job"""
     probs = []
     if "child_error" in rep:
-        return [f"unpickle: the other process could not load/observe the job: {rep['child_error'][-400:]}"]
+        return [f"unpickle: the other process could not load/observe the job: {' | '.join(rep['child_error'].strip().splitlines()[-3:])[-400:]}"]
     probs += ["identity: " + d for d in dict_diff(parent["obs"], rep["observables"])]
     probs += ["liveness: " + l for l in rep.get("liveness", [])]
     expected = parent["expected"]
@@ -163,7 +163,7 @@ def object_items(config_name, tmp: Path):
     items.append({"id": iid, "kind": "worker", "blob": cp.dumps(sub.worker)})
     parent[iid] = {"obs": T.worker_observables(sub.worker)}
     sub.close()
-    if config_name == "debug":
+    if config_name.startswith("debug"):
         out = T.P29Stats.Outputs(mean=1.5, n=2, label="L")
         variants = {
             "plain": Result(cache_dir=tmp / "r1", outputs=out, runtime=Runtime(rss_peak_gb=0.5, vms_peak_gb=1.5, cpu_peak_percent=99.0), errored=False, task=T.P29Stats(xs=[1.0, 2.0])),
@@ -173,7 +173,7 @@ def object_items(config_name, tmp: Path):
         for vn, r in variants.items():
             import attrs
 
-            iid = f"result/{vn}"
+            iid = f"result/{config_name}/{vn}"
             items.append({"id": iid, "kind": "result", "blob": cp.dumps(r)})
             parent[iid] = {
                 "result": {
@@ -192,7 +192,7 @@ def judge_object(rep, parent):
     import attrs
 
     if "child_error" in rep:
-        return [f"unpickle: the other process could not load the object: {rep['child_error'][-400:]}"]
+        return [f"unpickle: the other process could not load the object: {' | '.join(rep['child_error'].strip().splitlines()[-3:])[-400:]}"]
     probs = []
     if rep["kind"] == "submitter":
         probs += ["identity: " + d for d in dict_diff(parent["obs"], rep["observables"])]
@@ -257,7 +257,7 @@ def run(ctx):
         "used / sent back."
     )
     tasks = list(T.p29_pool(Path("/nonexistent")))
-    configs = ctx.pick(["debug", "cf-2"], list(T.P29_CONFIGS))
+    configs = ctx.pick(["debug-ro-cache", "cf-2"], list(T.P29_CONFIGS))
     dom = ctx.domain(
         "jobs-in-a-fresh-interpreter",
         bound=f"{len(tasks)} tasks ({', '.join(tasks)}) x configurations {configs}; {'one fresh interpreter per case' if ctx.thorough else 'one fresh interpreter per (configuration, task kind python/shell/workflow)'}, PYTHONHASHSEED = 1 + (seed + case index) mod 1000",
@@ -303,7 +303,7 @@ def run(ctx):
 
         dom2 = ctx.domain(
             "submitter-worker-result-objects",
-            bound=f"per configuration {configs}: the Submitter pickled alone and called in the fresh interpreter on a python task and two workflows; its Worker pickled alone (pool used); debug only: three Result objects (with runtime, errored, without task) sent there and back",
+            bound=f"per configuration {configs}: the Submitter pickled alone and called in the fresh interpreter on a python task and two workflows; its Worker pickled alone (pool used); debug configurations: three Result objects (with runtime, errored, without task) sent there and back",
             rule="one child interpreter per configuration; one case per object; non-trivial = always",
             exhaustive=True,
         )
